@@ -67,3 +67,45 @@ def failing_update_scheduler(samplers, fail_at):
             return super().update(*a, **k)
 
     return FailingUpdateScheduler(samplers)
+
+
+def _scribbling_scheduler_class():
+    from black_it.schedulers.round_robin import RoundRobinScheduler
+
+    class ScribblingRoundRobin(RoundRobinScheduler):
+        """A user-defined round-robin scheduler whose update() post-processes what it receives *in place* (sloppy but legal:
+        the arguments are the scheduler's to look at; the calibrator's records are not)."""
+
+        def update(self, batch_id, new_params, new_losses, new_simulated_data):
+            for arg in (new_losses, new_params, new_simulated_data):
+                a = np.asarray(arg)
+                if a.dtype.kind == "f" and a.size and a.flags.writeable:
+                    with np.errstate(all="ignore"):
+                        a -= np.nanmin(a)
+            return super().update(batch_id, new_params, new_losses, new_simulated_data)
+
+    return ScribblingRoundRobin
+
+
+ScribblingRoundRobin = _scribbling_scheduler_class()
+ScribblingRoundRobin.__qualname__ = "ScribblingRoundRobin"
+ScribblingRoundRobin.__module__ = __name__
+
+
+def _nested_sampler_holder():
+    from black_it.samplers.random_uniform import RandomUniformSampler
+
+    class UserSamplers:
+        """User code often keeps its own sampler classes inside a namespace class: the class name and the qualified name
+        then differ ('LocalUniformSampler' vs 'UserSamplers.LocalUniformSampler')."""
+
+        class LocalUniformSampler(RandomUniformSampler):
+            pass
+
+    UserSamplers.__qualname__ = "UserSamplers"
+    UserSamplers.LocalUniformSampler.__qualname__ = "UserSamplers.LocalUniformSampler"
+    UserSamplers.__module__ = UserSamplers.LocalUniformSampler.__module__ = __name__
+    return UserSamplers
+
+
+UserSamplers = _nested_sampler_holder()
